@@ -79,21 +79,23 @@ type job struct {
 
 // runOut is the serialisable outcome of one driven call.
 type runOut struct {
-	Config     hedgeCfg   `json:"config"`
-	Returned   bool       `json:"returned"`
-	Err        string     `json:"err,omitempty"`
-	HasErr     bool       `json:"has_err"`
-	Equal      bool       `json:"bytes_equal_resource"`
-	GotLen     int        `json:"returned_len"`
-	FirstDiff  int        `json:"first_diff"`
-	Deadlock   bool       `json:"deadlock"`
-	GaveUp     string     `json:"gave_up,omitempty"`
-	Dump       string     `json:"caller_goroutine,omitempty"`
-	Deliveries []delivery `json:"deliveries_in_order"`
-	Steps      int        `json:"steps"`
-	Dumps      int        `json:"dumps"`
-	Heads      int        `json:"heads"`
-	Simples    int        `json:"simples"`
+	Config       hedgeCfg   `json:"config"`
+	Returned     bool       `json:"returned"`
+	Err          string     `json:"err,omitempty"`
+	HasErr       bool       `json:"has_err"`
+	Equal        bool       `json:"bytes_equal_resource"`
+	GotLen       int        `json:"returned_len"`
+	FirstDiff    int        `json:"first_diff"`
+	Deadlock     bool       `json:"deadlock"`
+	DeadlockKind string     `json:"deadlock_kind,omitempty"`
+	Panic        string     `json:"panic,omitempty"`
+	GaveUp       string     `json:"gave_up,omitempty"`
+	Dump         string     `json:"caller_goroutine,omitempty"`
+	Deliveries   []delivery `json:"deliveries_in_order"`
+	Steps        int        `json:"steps"`
+	Dumps        int        `json:"dumps"`
+	Heads        int        `json:"heads"`
+	Simples      int        `json:"simples"`
 }
 
 func (j *job) materialise() (resource, served []byte) {
@@ -119,7 +121,7 @@ func childRun(in []byte) []byte {
 	outs := make([]runOut, 0, len(cfgs))
 	for _, hc := range cfgs {
 		o := drive(j.Script, hc, served)
-		ro := runOut{Config: hc, Returned: o.Returned, Deadlock: o.Deadlock, GaveUp: o.GaveUp, Dump: o.Dump, Deliveries: o.Deliveries,
+		ro := runOut{Config: hc, Returned: o.Returned, Deadlock: o.Deadlock, DeadlockKind: o.DeadlockKind, Panic: o.Panic, GaveUp: o.GaveUp, Dump: o.Dump, Deliveries: o.Deliveries,
 			Steps: o.Steps, Dumps: o.Dumps, Heads: o.Heads, Simples: o.Simples, GotLen: len(o.Data)}
 		if o.Err != nil {
 			ro.HasErr, ro.Err = true, o.Err.Error()
@@ -236,6 +238,13 @@ func judge(r *mon.Run, j *job, o runOut) string {
 		r.Count("driver.gave_up", 1)
 		r.Inconclusive("C32 driver watchdog: " + o.GaveUp)
 		return "gave-up"
+	case o.Panic != "":
+		r.Violation("fetcher-panic:"+cfgClass(sc, o.Config), "FetchWithParallelRangeRequests panicked: neither the resource nor an error", w)
+		return "panic"
+	case o.Deadlock && o.DeadlockKind != "":
+		r.Violation("quiescent-deadlock:"+o.DeadlockKind+":"+cfgClass(sc, o.Config),
+			"FetchWithParallelRangeRequests is parked in chan receive; every goroutine of the call is blocked on the semaphore, nothing is in flight or scheduled", w)
+		return "deadlock"
 	case o.Deadlock:
 		last := "fail"
 		if f.lastOK {
@@ -277,6 +286,62 @@ func judge(r *mon.Run, j *job, o runOut) string {
 		r.Class("ok:zstd-parallel")
 	}
 	return "ok"
+}
+
+// cfgClass names the configuration class for signatures of the zero/negative
+// FetchConfig probe.
+func cfgClass(sc *script, hc hedgeCfg) string {
+	var parts []string
+	switch {
+	case hc.Parallel == 0:
+		parts = append(parts, "max-parallel-requests=0")
+	case hc.Parallel < 0:
+		parts = append(parts, "max-parallel-requests<0")
+	}
+	switch {
+	case sc.Chunk == 0:
+		parts = append(parts, "chunk-size=0")
+	case sc.Chunk < 0:
+		parts = append(parts, "chunk-size<0")
+	}
+	if len(parts) == 0 {
+		return "ordinary-config"
+	}
+	return strings.Join(parts, "+")
+}
+
+// zeroConfigJobs: FetchConfig values a caller gets by filling a struct
+// literal partially (every field comment says "Default: ..."; the library has
+// no validator and accepts them) — inside "all chunk sizes, parallelism limits".
+func zeroConfigJobs() []*job {
+	var jobs []*job
+	for _, c := range []struct {
+		parallel int
+		chunk    int64
+	}{{0, 7}, {-1, 7}, {4, 0}, {4, -7}, {0, 0}} {
+		sc := &script{Size: 17, Chunk: c.chunk, Threshold: 1, MaxFetch: 1 << 20, Head: headSpec{"normal"}, Simple: "ok",
+			Attempts: map[string]behaviour{}, Seed: uint64(9_000_000 + len(jobs))}
+		jobs = append(jobs, &job{Arm: "zeroconfig", Script: sc, ResLen: 17, Parallel: c.parallel,
+			Label: fmt.Sprintf("MaxParallelRequests=%d ChunkSizeBytes=%d", c.parallel, c.chunk)})
+	}
+	return jobs
+}
+
+// panicsInLibrary: the panicking frame (first frame of the running goroutine)
+// is library code, not the harness' transport or driver.
+func panicsInLibrary(detail string) bool {
+	i := strings.Index(detail, "[running]:\n")
+	if i < 0 {
+		return false
+	}
+	rest := detail[i+len("[running]:\n"):]
+	for _, line := range strings.Split(rest, "\n") {
+		if strings.HasPrefix(line, "panic(") || strings.HasPrefix(line, "runtime.") || strings.HasPrefix(line, "\t") {
+			continue
+		}
+		return strings.Contains(line, "vgi-rpc-go/vgirpc.")
+	}
+	return false
 }
 
 func firstDiff(a, b []byte) int {
@@ -550,7 +615,7 @@ func runJobs(r *mon.Run, jobs []*job, workers, blockSize int) {
 	wg.Wait()
 	for i, j := range jobs {
 		if p := problems[i]; p != "" {
-			if strings.HasPrefix(p, "CRASH") && strings.Contains(p, "vgirpc.") {
+			if strings.HasPrefix(p, "CRASH") && panicsInLibrary(p) {
 				r.Violation("fetcher-panic", "a panic escaped FetchWithParallelRangeRequests (neither bytes nor an error)", map[string]any{"job": j, "detail": p})
 			} else {
 				r.Inconclusive("C32 job " + fmt.Sprint(i) + ": " + p[:min(len(p), 300)])
@@ -560,6 +625,8 @@ func runJobs(r *mon.Run, jobs []*job, workers, blockSize int) {
 		judgeJob(r, j, results[i])
 		if j.Arm == "enum" {
 			r.Class(fmt.Sprintf("enumerated:n=%d", j.Script.numChunks()))
+		} else if j.Arm == "zeroconfig" {
+			r.Class("zero-or-negative-config-probed")
 		} else if j.Arm == "fallback" {
 			sc := j.Script
 			took := len(results[i]) > 0 && results[i][0].Simples > 0
@@ -605,7 +672,7 @@ func main() {
 		"one evaluation = one driven call; distinct = distinct (script, config, observed delivery order)")
 	r.Require("ok-exact", "error-returned", "hedge-delivered", "straggler-cancelled", "hang-released-by-timeout", "simple-get-fallback", "semaphore-limited",
 		"ok:hedge-rescued-failed-chunk", "ok:late-hedge-failure-suppressed", "ok:zstd-parallel", "differential:both-succeeded-equal",
-		"fallback:chunked-get:resource>max-fetch", "fallback:chunked-get:resource==max-fetch", "fallback:chunked-get:resource==max-fetch:returned-exact",
+		"zero-or-negative-config-probed", "fallback:chunked-get:resource>max-fetch", "fallback:chunked-get:resource==max-fetch", "fallback:chunked-get:resource==max-fetch:returned-exact",
 		"fallback:declared-length:resource>max-fetch", "fallback:chunked-get:resource<max-fetch:returned-exact",
 		"enumerated:n=3", "enumerated:n=6", "head:no-length", "head:no-accept-ranges", "head:error")
 	r.Assume("a goroutine dump (runtime.Stack all) reports goroutine states and 'created by ... in goroutine N' truthfully; 'parked' and 'quiescent deadlock' are read from it, never from elapsed time")
@@ -622,6 +689,7 @@ func main() {
 	fj := fallbackJobs()
 	runJobs(r, fj, workers, 50)
 	r.Set("enumerated_fallback_scripts", len(fj))
+	runJobs(r, zeroConfigJobs(), 2, 1)
 	t1 := time.Now()
 	rj := randomJobs(r, r.N(500, 12000), r.Thorough())
 	runJobs(r, rj, workers, 60)
